@@ -242,7 +242,7 @@ PAL = [
      [[], [Elt(Pair(I(1), Str('a')), I(1)), Elt(Pair(I(2), Str('b')), I(2))]]),
     (ty('map', ty('or', ty('int', annots=['%l']), ty('string')), ty('option', ty('int'))),
      [[Elt(Left(I(1)), NONE), Elt(Right(Str('a')), Some(I(1)))]]),
-    (ty('big_map', ty('string'), ty('int')), [[Elt(Str('a'), I(1))], I(7)]),
+    (ty('big_map', ty('string'), ty('int')), [[Elt(Str('a'), I(1))], I(7), I(0), []]),   # ids 7 and 0 (falsy), literal, empty literal
     (ty('big_map', ty('pair', ty('nat'), ty('bytes')), ty('pair', ty('int', annots=['%v']), ty('string'))),
      [[Elt(Pair(I(0), {'bytes': '00'}), Pair(I(1), Str('x')))]]),
     (ty('timestamp'), [Str('1970-01-01T00:00:00Z'), Str('2020-02-29T23:59:59Z')]),
